@@ -16,44 +16,44 @@ BLEND = (" Reference blend functions: C++ transcription of Aseprite's blend_func
 
 checks = [
  ("C01", MC, "bounded-exhaustive input-space exploration vs executable reference model",
-  "Every field of a maximally varied default sprite swept over its whole domain (all 8/16-bit values, B32 boundary basis for 32-bit fields, a name alphabet incl. empty/255/256/65535-byte/multi-byte UTF-8), radius-2 (thorough 3) Hamming balls for interactions, entity-count ladders up to the format maxima, every permutation of the order-insensitive chunk groups, and all duplicate-name placements; each instance is encoded, loaded by the real library, observed through every public structure accessor and compared with the reference interpreter's prediction.", "§3 C01", TRUST),
+  "Every field of a maximally varied default sprite swept over its whole domain (all 8/16-bit values, B32 boundary basis for 32-bit fields, a name alphabet incl. empty/255/256/65535-byte/multi-byte UTF-8), radius-2 (thorough 3) Hamming balls for interactions, entity-count ladders up to the format maxima, every permutation of the order-insensitive chunk groups, all duplicate-name placements, every distribution of the movable chunk groups over three frames; the canvas sweeps also observe tilemap attributes and lookups; each instance is encoded, loaded by the real library, observed through every public structure accessor and compared with the reference interpreter's prediction.", "§3 C01", TRUST),
  ("C02", MC, "bounded-exhaustive exploration of layer stacks vs reference compositor",
-  "All layer stacks of 1-4 layers within Hamming distance 3/3/3/2 (thorough 4/4/4/3) of the default over blend mode, both opacities, visibility, kind (image / child of visible or hidden group / tilemap), cel shape (full, absent, linked, 1x1, 2x3, 5x4) and offsets incl. the i16 extremes; every small cel size at every offset around the canvas; all 65,536 opacity pairs; all n! cel-chunk orders; all link source/target pairs. Frame and cel images compared bit for bit with a bottom-to-top compositor built on the reference blend functions.", "§3 C02", TRUST + BLEND),
+  "All layer stacks of 1-4 layers within Hamming distance 3/3/3/2 (thorough 4/4/4/3) of the default over blend mode, both opacities, visibility, kind (image / child of visible or hidden group / tilemap), cel shape (full, absent, linked, 1x1, 2x3, 5x4) and offsets incl. the i16 extremes; every small cel size at every offset around the canvas; all 65,536 opacity pairs; all n! cel-chunk orders; all link source/target pairs with the link chunk's own fields varied; nested groups (every forest of up to 5 layers) with blended overlapping cels; portrait, narrow and >256-pixel canvases; layer flag words and the header flag word varied. Frame and cel images compared bit for bit with a bottom-to-top compositor built on the reference blend functions.", "§3 C02", TRUST + BLEND),
  ("C03", MC, "exhaustive grid enumeration of blend inputs vs C++ reference (bit-for-bit)",
-  "Quick: for all 19 modes, all 65,536 (backdrop channel, source channel) pairs in each colour slot x 654 alpha pairs (A12^2 + both full axes), the 546-pair opacity sweep, the tie lattice and an 8-level RGB lattice (8.6e8 pixel points). Thorough: the COMPLETE (Bc,Sc,Ba,Sa) = 2^32 space for the 15 separable modes, all 256 layer opacities x the channel grid for all modes, the 16-level HSL lattice, full-range HSL axes and all 65,536 opacity pairs. Every pixel rendered through the public API and compared bit for bit with Aseprite's blend functions.", "§3 C03", TRUST + BLEND),
+  "Quick: for all 19 modes, all 65,536 (backdrop channel, source channel) pairs in each colour slot x 654 alpha pairs (A12^2 + both full axes), the 546-pair opacity sweep, the tie lattice, an 8-level RGB lattice, the tilemap rendering route and source layers with other flag bits (8.6e8 pixel points). Thorough: the COMPLETE (Bc,Sc,Ba,Sa) = 2^32 space for the 15 separable modes, all 256 layer opacities x the channel grid for all modes, the 16-level HSL lattice, full-range HSL axes and all 65,536 opacity pairs. Every pixel rendered through the public API and compared bit for bit with Aseprite's blend functions.", "§3 C03", TRUST + BLEND),
  ("C04", FE, "exhaustive fault/corruption enumeration in isolated worker processes",
-  "Every single-byte substitution (all 256 values at every offset) of three base files, every recorded field set to every boundary value, all pairs of structural fields, ~3,300 re-encoded semantic inconsistencies, every strict prefix, every byte string of length <= 2 and constant fills, and scale inputs up to 8 MiB (65535 frames / layers / nesting levels / tags, 10^6 chunks); each loaded on a 2 MiB thread in a worker process with catch_unwind, a counting allocator and a wall-clock cap, in the `checked` profile (overflow checks + debug assertions, optimised) and in `unopt` (same, unoptimised); thorough adds `plain`, the fourth base, corpus files and all-field pairs. Verdict per input: sprite or error value; panic, abort (signal), over-budget allocation or timeout is a violation.", "§3 C04", TRUST),
+  "Every single-byte substitution (all 256 values at every offset) of three base files, every recorded field set to every boundary value, all pairs of structural fields, ~3,300 re-encoded semantic inconsistencies, program-level faults (every chunk deleted / duplicated / swapped / moved / retyped, frames dropped or duplicated), every strict prefix, every byte string of length <= 2 and constant fills, and scale inputs up to 8 MiB (65535 frames / layers / nesting levels / tags, 10^6 chunks); each loaded on a 2 MiB thread in a worker process with catch_unwind, a counting allocator and a wall-clock cap, in the `checked` profile (overflow checks + debug assertions, optimised) and in `unopt` (same, unoptimised), the small families also through `read_file` on a temporary file; bases are four small sprites, the indexed default sprite and a 400 KB sprite whose chunks all exceed 64 KiB; thorough adds `plain`, corpus files and all-field pairs. Verdict per input: sprite or error value; panic, abort (signal), over-budget allocation or timeout is a violation.", "§3 C04", TRUST),
  ("C05", FE, "exhaustive fault/corruption enumeration + whole-API walk in isolated worker processes",
   "The C04 input set; every input that loads is walked through every public accessor (all frame, cel, tilemap, tile and tileset images, tile lookups incl. 2^31-1, 2^31, 2^32-1, layers/parents/visibility, tags, slices, user data, Debug) on a 2 MiB thread in a worker process; any panic, abort, timeout, route disagreement or image with other than the documented dimensions is a violation.", "§3 C05", TRUST),
  ("C06", MC, "bounded-exhaustive exploration of pixel decoding vs reference model",
-  "Every byte value in every RGBA channel slot, all 65,536 grayscale (value, alpha) pairs, all 256 indices against a full palette for every transparent index 0..255 on background and non-background layers, sparse palettes, raw and compressed storage, opacity pairs, offsets, all 19 blend modes (the cel image must not depend on it), every subset of present cells and every link source/target pair; cel images, emptiness, offsets compared with the statement's formula.", "§3 C06", TRUST),
+  "Every byte value in every RGBA channel slot, all 65,536 grayscale (value, alpha) pairs, all 256 indices against a full palette for every transparent index 0..255 on background and non-background layers, sparse palettes, raw and compressed storage, opacity pairs, offsets, all 19 blend modes (the cel image must not depend on it), every subset of present cells, every link source/target pair (with the link's own offset/opacity varied), every small cel at every offset on landscape, portrait and large canvases; cel images, emptiness, offsets compared with the statement's formula.", "§3 C06", TRUST),
  ("C07", MC, "bounded-exhaustive exploration of encoding-choice vectors, differential oracle",
-  "For six base sprites, all vectors within Hamming distance 1-2 (thorough 2-3) of the canonical encoding over every choice point of the file (cel storage raw/zlib 0-9, count-field style per frame, an ignorable chunk at every chunk boundary, trailing bytes per chunk, bytes after the last frame, every unused header/layer field, zero pixel-ratio components, a redundant legacy palette, every cel-chunk order), plus uniform vectors and the full 512-value pixel-ratio sweep; whole-API observation must equal the canonical file's and the reference prediction.", "§3 C07", TRUST),
+  "For six base sprites, all vectors within Hamming distance 1-2 (thorough 2-3) of the canonical encoding over every choice point of the file (cel storage raw/zlib 0-9, count-field style per frame, an ignorable chunk at every chunk boundary, trailing bytes per chunk, bytes after the last frame, every unused header/layer field, zero pixel-ratio components, a redundant legacy palette, every cel-chunk order), plus uniform vectors, the full 512-value pixel-ratio sweep and frames of 65534-70000 chunks under every count style; single deviations and size-field / tail variants are also loaded through `read_file`; whole-API observation must equal the canonical file's and the reference prediction.", "§3 C07", TRUST),
  ("C08", MC, "exhaustive product enumeration of tilemap configurations vs reference model and direct oracle",
-  "Full product of pixel format x tile size x tile count x canvas size (exact and inexact division) x stored map size x tile offset in {-3..3}^2 x tile-word pattern (incl. flip/rotate bits under the id mask) x opacity pair: 2.57 million sprites (thorough 9 million + an i32-overflow extreme); lookups at every coordinate in and beyond the logical area and at 2^31-1, 2^31, 2^32-1. Checked against the reference model and, literally as stated, on the library's own outputs (image pixel == pixel of the tile the lookup reports).", "§3 C08", TRUST),
+  "Full product of pixel format x tile size x tile count x canvas size (exact and inexact division) x stored map size x tile offset in {-3..3}^2 x tile-word pattern (incl. flip/rotate bits under the id mask) x opacity pair: 2.57 million sprites (thorough 9 million + an i32-overflow extreme); lookups at every coordinate in and beyond the logical area and at 2^31-1, 2^31, 2^32-1; canvas and tile extents over the 16-bit range for the size in tiles; tilesets of up to 1000 tiles; one tileset shared by cels of different opacity. Checked against the reference model and, literally as stated, on the library's own outputs (image pixel == pixel of the tile the lookup reports).", "§3 C08", TRUST),
  ("C09", MC, "exhaustive enumeration of layer forests and visibility assignments vs reference model",
-  "All 2,055 forest level sequences of up to 8 layers x all 2^n visible-flag assignments (431,058 sprites; thorough up to 10 layers, 31 million) with one opaque pixel per leaf, and single chains of depth up to 65,535 loaded and walked on a 2 MiB thread in worker processes; parent(), is_visible() and frame images compared with the model.", "§3 C09", TRUST),
+  "All 2,055 forest level sequences of up to 8 layers x all 2^n visible-flag assignments (431,058 sprites; thorough up to 10 layers, 31 million) with one opaque pixel per leaf, every subset of leaves holding a cel (forests up to 6 layers), groups of up to 1000 children, sprites with more than 65,536 layers, and single chains of depth up to 65,535 loaded and walked on a 2 MiB thread in worker processes; parent(), is_visible() and frame images compared with the model.", "§3 C09", TRUST),
  ("C10", MC, "explicit-state exploration of the user-data attachment automaton, every model trace replayed on the implementation",
-  "Breadth of every enabled event history up to length 6 over 10 symbols and length 5 over 13 symbols (thorough: 8 and 7) built from layer, cel, slice, tags(2), both legacy palettes, new palette, ignorable, next-frame and user-data (4 payload shapes) events; histories are not merged; each is encoded as a real multi-frame file, loaded, and every entity's user data compared with the model automaton.", "§3 C10", TRUST),
+  "Breadth of every enabled event history up to length 6 over 10 symbols and length 5 over 13 symbols (thorough: 8 and 7) built from layer, cel (linked in later frames), slice, tags(2), both legacy palettes, new palette, ignorable, next-frame and user-data (4 payload shapes) events; histories are not merged; each is encoded as a real multi-frame file, loaded, and every entity's user data compared with the model automaton.", "§3 C10", TRUST),
  ("C11", MC, "bounded-exhaustive exploration of palette chunks and pixel buffers vs reference model",
-  "New-format palettes over a (first, length) grid x entry flags (B16) x names; every legacy packet list of <= 3 packets over skip/count alphabets (4,369 lists per chunk kind) with cumulative offsets; every 6-bit component value; new-vs-legacy precedence in both orders; every palette subset of {0..7} x every pixel buffer of length <= 3 over {0..8} x carrier {raw cel, compressed cel, tileset} (load fails iff an index is missing); every single index against its complement palette.", "§3 C11", TRUST),
+  "New-format palettes over a (first, length) grid x entry flags (B16) x names; every legacy packet list of <= 3 packets over skip/count alphabets (4,369 lists per chunk kind) with cumulative offsets; every 6-bit component value; new-vs-legacy precedence in both orders within a frame and across frames; indexed sprites with palettes reaching past index 255; every palette subset of {0..7} x every pixel buffer of length <= 3 over {0..8} x carrier {raw cel, compressed cel, tileset} (load fails iff an index is missing); every single index against its complement palette.", "§3 C11", TRUST),
  ("C12", FE, "exhaustive fault enumeration with measured heap (counting allocator, hard budget = the property's bound)",
-  "Every size/count/index/string-length field of four base files set to every larger boundary value up to the type maximum, all pairs of such fields at {max, max/2+1, 4096}, deflate bombs of 1-64 MiB (thorough 512 MiB) behind tiny and honest declared sizes, the frames x layers cel-table family up to 4000 x 4000 (thorough 12000 x 12000 and 65535 x 1000), and the C04 corruption families; peak live heap between entry to and return from AsepriteFile::read measured by a process-wide counting allocator in a worker process whose hard budget is 64 MiB + 8192 bytes per input byte.", "§3 C12", TRUST),
+  "Every size/count/index/string-length field of four base files set to every larger boundary value up to the type maximum, all pairs of such fields at {max, max/2+1, 4096}, deflate bombs of 1-64 MiB (thorough 512 MiB) behind tiny and honest declared sizes, the frames x layers cel-table family up to 4000 x 4000 (thorough 12000 x 12000 and 65535 x 1000), well-formed files with up to 1000 (thorough 65,534) linked cels pointing at one large compressible cel, and the C04 corruption families; peak live heap between entry to and return from AsepriteFile::read measured by a process-wide counting allocator in a worker process whose hard budget is 64 MiB + 8192 bytes per input byte.", "§3 C12", TRUST),
  ("C13", FE, "exhaustive crash-point enumeration (every cut offset)",
-  "Every strict prefix bytes[..k] for every k below the end of the last frame of 60+ files (four bases, the default sprite in three formats, one file per chunk kind with that chunk last, a file with trailing bytes / both count styles / a tail, all corpus files up to 8 KB; thorough adds a 525 KB corpus file at every offset): load must return an error, never a sprite, never panic.", "§3 C13", TRUST),
+  "Every strict prefix bytes[..k] for every k below the end of the last frame of 60+ files (four bases, the default sprite in three formats, one file per chunk kind with that chunk last, a file with trailing bytes / both count styles / a tail, all corpus files up to 8 KB, files whose last or middle frames have no chunks, a 400 KB file with cuts near every chunk / 4 KiB boundary; thorough adds every offset of that file and a 525 KB corpus file at every offset): load must return an error, never a sprite, never panic.", "§3 C13", TRUST),
  ("C14", MC, "deviation-bounded exploration of the reader environment (every read() call a choice point)",
-  "All schedules with at most 2 (thorough 3) non-default answers over every read() call of the run - short reads of 1 / ceil(n/2) / n-1 bytes, transient Interrupted, hard errors of 8 kinds each carrying a unique token - with replay-divergence checks; every uniform maximum read size 1..64 and larger through five BufReader capacities; Cursor, slice and file-backed readers; a hard error of every kind after exactly p bytes for every p below the end of the last frame under four delivery patterns. No-error schedules must give the in-memory result; error schedules must return IoError whose source() is that very error.", "§3 C14", TRUST),
+  "All schedules with at most 2 (thorough 3) non-default answers over every read() call of the run - short reads of 1 / ceil(n/2) / n-1 bytes, transient Interrupted, hard errors of 8 kinds each carrying a unique token - with replay-divergence checks; every uniform maximum read size 1..64 and larger through five BufReader capacities; Cursor, slice and file-backed readers (also on encodings with tail bytes / odd size fields); a 400 KB target whose chunks exceed 64 KiB; a hard error of every kind after exactly p bytes for every p below the end of the last frame under four delivery patterns. No-error schedules must give the in-memory result; error schedules must return IoError whose source() is that very error.", "§3 C14", TRUST),
  ("C15", EX, "exhaustive enumeration of unsupported-feature switches",
   "On five (thorough seven) base sprites: all 64,770 non-1:1 pixel ratios, ICC / fixed-gamma colour profiles at every chunk boundary, every u16 value outside the supported set for colour depth, layer type and blend mode on every layer, cel type on every cel, bits-per-tile on every tilemap cel, every u8 animation direction outside 0..2 on every tag, and every tileset with its 'embedded' bit cleared: 3.5 million files, each must fail to load with an error value.", "§3 C15", TRUST),
  ("C16", MC, "exhaustive call-history enumeration + exhaustive schedule exploration (shuttle DFS) + cross-profile digest comparison",
-  "(a) compile-time Send+Sync assertions for 20 public types; (b) every sequence with repetition of length <= 4 (thorough 5, plus all 8! orders) over 14 representative accessor calls on one sprite, each call compared with a freshly loaded sprite, plus double loads of 2,100 files; (c) shuttle check_dfs - exhaustive, no sampling - over 4,044 thread configurations (2 threads x 2 calls, 3 threads x 1-2 calls) on one shared reference, 3.3 million schedules at call granularity; (e) load+walk digests of ~418,000 inputs compared case by case between the `checked` and `plain` profiles (thorough: and `unopt`). A free-running 16-thread run is reported as a labelled sampling supplement only.", "§3 C16",
+  "(a) compile-time Send+Sync assertions for 20 public types; (b) every sequence with repetition of length <= 4 (thorough 6, plus all 8! orders) over 14 representative accessor calls on one sprite, and of length <= 3 (thorough 4) over 10 calls on a 300-layer sprite whose cel coordinates differ only beyond bit 7, each call compared with a freshly loaded sprite, plus double loads of 2,100 files; (c) shuttle check_dfs - exhaustive, no sampling - over 4,044 thread configurations (2 threads x 2 calls, 3 threads x 1-2 calls) on one shared reference, 3.3 million schedules at call granularity; (e) load+walk digests of ~418,000 inputs compared case by case between the `checked` and `plain` profiles (thorough: and `unopt`). A free-running 16-thread run is reported as a labelled sampling supplement only.", "§3 C16",
   TRUST + " Preemption inside one accessor call is not explored: the crate has no synchronisation operation, interior mutability, statics or unsafe (reported per run as an assumption from a source scan)."),
  ("C17", MC, "exhaustive grid enumeration of blend inputs, metamorphic oracle (no reference implementation)",
   "On the same grids as C03 (8.6e8 points quick, ~7.6e10 thorough) and all 19 modes: alpha equals the Normal-mode alpha of the same inputs; a transparent source or zero opacity product leaves a visible backdrop unchanged; a transparent backdrop yields the source with scaled alpha; Normal/255/opaque returns the source; and no overflow check or debug assertion fires (the subject is compiled with both on).", "§3 C17", TRUST),
  ("C18", EX, "bounded-exhaustive enumeration of helper inputs vs the documented behaviour",
-  "extrude_border on every (w,h) in [1,24]^2 (thorough [1,64]^2) plus 255/256/257 edge sizes with position-coded pixels; PaletteMapper over palettes loaded from real files for every assignment of three colours to every index subset of size <= 4 of {0,1,255,256,257,70000} x failure x transparent options x colour/permutation/absent queries x four alphas; to_indexed_image on every size up to 4x4.", "§3 C18", TRUST),
+  "extrude_border on every (w,h) in [1,24]^2 (thorough [1,64]^2) plus 255/256/257 edge sizes with position-coded pixels; PaletteMapper over palettes loaded from real files for every assignment of three colours to every index subset of size <= 4 of {0,1,255,256,257,70000} x five entry-alpha patterns x failure x transparent options, and over palettes that do not start at 0 or have gaps x colour/permutation/absent queries x four alphas; to_indexed_image on every size up to 4x4 and on EVERY image of up to 4 pixels over a 6-pixel alphabet.", "§3 C18", TRUST),
  ("C19", MC, "exhaustive enumeration of cell-presence subsets, direct differential oracle + reference model",
-  "For (frames, layers) in {(2,3),(3,2),(1,4),(4,1)}: every subset of present cells with unique offset/pixels/opacity/user data, in six variants (plain, linked cell, tilemap layer, hidden layer, non-Normal blend, hidden group parent), plus the corpus files: the three access routes must agree on every attribute and image, single-visible-layer frames must equal the cel image, tilemap image must equal its cel image - checked directly on the library's outputs and against the model.", "§3 C19", TRUST),
+  "For (frames, layers) in {(2,3),(3,2),(1,4),(4,1)}: every subset of present cells with unique offset/pixels/opacity/user data, in seven variants (plain, linked cell, tilemap layer, hidden layer, non-Normal blend, hidden group parent, full layer opacity with reduced cel opacity), sprites with more than 256 / 65,536 frames or layers, every non-forest level sequence up to 4 layers (model-free), plus the corpus files: the three access routes must agree on every attribute and image, single-visible-layer frames must equal the cel image, tilemap image must equal its cel image - checked directly on the library's outputs and against the model.", "§3 C19", TRUST),
 ]
 
 m = {
@@ -71,7 +71,7 @@ m = {
      "kind_free_text": "hand-rolled bounded-exhaustive explorer in Rust: mc-core (file model, encoder, reference semantics, C++ reference blend, enumerators, evidence writer), mc-walk (whole-API observation, counting allocator, isolated worker processes; built in profiles checked/unopt/plain), mc-harness (one module per property), mc-sendsync (compile-time assertions); shuttle 0.9.3 check_dfs for C16 schedules"}
   ],
   "checks": [],
-  "notes": "All checks are bounded-exhaustive enumerations run against the real library (no sampling decides anything; VERIF_SEED is recorded only). ./check <ID> <tier> rebuilds from /repo's working tree. Violations are written to /verif/replays/<ID>/ and can be re-run with ./check replay <file>. Known findings: /verif/known_findings.txt (currently only `fixed:` entries). See DESIGN.md.",
+  "notes": "All checks are bounded-exhaustive enumerations run against the real library (no sampling decides anything; VERIF_SEED is recorded only). ./check <ID> <tier> rebuilds from /repo's working tree. Violations are written to /verif/replays/<ID>/ and can be re-run with ./check replay <file>. Known findings: /verif/known_findings.txt (currently only `fixed:` entries: 13 genuine defects repaired with fix: commits in /repo). Detection evidence: mutants/RESULTS.md, seeded/*/meta.json. See DESIGN.md.",
   "not_applicable": []
 }
 for (pid, cat, tech, text, ref, note) in checks:
